@@ -63,6 +63,10 @@ var untypedCollectionInterface = reflect.TypeOf((*b6.UntypedCollection)(nil)).El
 
 // Convert v to type t, if possible. Doesn't convert functions.
 func Convert(v reflect.Value, t reflect.Type, w b6.World) (reflect.Value, error) {
+	if v.Kind() == reflect.Interface && !v.IsNil() {
+		// eg the interface{} result of first, second or call
+		v = v.Elem()
+	}
 	if v.Type().AssignableTo(t) {
 		return v, nil
 	} else if v.CanConvert(t) {
